@@ -19,7 +19,7 @@ pub static DEF: PropertyDef = PropertyDef {
         "story seed supplied through the guarded seed hook so that both sides share it",
         "programs whose inkVersion differs from the engine's are excluded (their constructor-time warning is not part of reset)",
     ],
-    runs_quick: 1200,
+    runs_quick: 5000,
     runs_thorough: 60000,
     exhaustive_note: "reset injected at every prefix of each sampled history",
     generate,
